@@ -48,7 +48,8 @@ def register_modules(prop, *mods):
 
 # ---------------------------------------------------------------------------------------------- workers
 def _unit_worker(arg):
-    modname, cname, case_name, rlimit = arg
+    modname, cname, case_name, rlimit = arg[:4]
+    xc_n = arg[4] if len(arg) > 4 else 0
     try:
         from . import contract, extract, verify
         extract.ensure_repo_on_path()
@@ -63,6 +64,14 @@ def _unit_worker(arg):
         d = res.to_json()
         d["prop"] = ccls.prop
         d["doc"] = (ccls.__doc__ or "").strip()
+        if xc_n and not d.get("unsupported"):
+            # CPython cross-check of the engine + the same contract read at run time on the real function
+            try:
+                from . import crosscheck
+                d["crosscheck"] = crosscheck.crosscheck_unit(ccls, case, n=xc_n, seed=arg[5] if len(arg) > 5 else 0)
+            except Exception:
+                d["crosscheck"] = {"compared": 0, "skipped": "cross-check crashed: " + traceback.format_exc()[-400:], "mismatches": [],
+                                   "contract_evals": 0, "contract_failures": [], "contract_errors": []}
         return d
     except Exception:
         return {"contract": cname, "case": case_name, "error": traceback.format_exc(), "obligations": [], "target": "?",
@@ -121,6 +130,7 @@ def run_check(prop, tier="quick", seed=0, only=None, jobs=None):
     for m in mods:
         importlib.import_module(m)
     rlimit = None if tier == "quick" else 60_000_000
+    xc_n = 0 if os.environ.get("VERIF_CROSSCHECK") == "0" else (6 if tier == "quick" else 40)
     units = []
     for ccls in contract.REGISTRY.get(prop, []):
         if getattr(ccls, "abstract", False):
@@ -128,7 +138,7 @@ def run_check(prop, tier="quick", seed=0, only=None, jobs=None):
         for case_name, case in verify.get_cases(ccls):
             if only and not any(fnmatch.fnmatch(f"{ccls.cname}[{case_name}]", o) for o in only):
                 continue
-            units.append((ccls.__module__, ccls.cname, case_name, rlimit))
+            units.append((ccls.__module__, ccls.cname, case_name, rlimit, xc_n, seed))
     fns = []
     for kind, reg in (("fd", FD_REGISTRY), ("bnd", BND_REGISTRY)):
         for entry in reg.get(prop, []):
@@ -171,8 +181,29 @@ def assemble(prop, tier, seed, unit_results, fn_results, wall):
     solver_s = 0.0
     out_of_reach = []
     vacuity = []
+    xc = {"units_compared": 0, "runs_compared": 0, "contract_evaluations": 0, "skipped": {}, "disagreements": []}
     for u in unit_results:
         tag = f"{u['contract']}[{u['case']}]"
+        c = u.get("crosscheck")
+        distrust = False
+        if c:
+            xc["runs_compared"] += c.get("compared", 0)
+            xc["contract_evaluations"] += c.get("contract_evals", 0)
+            if c.get("compared"):
+                xc["units_compared"] += 1
+            elif c.get("skipped"):
+                xc["skipped"][c["skipped"][:90]] = xc["skipped"].get(c["skipped"][:90], 0) + 1
+            if c.get("mismatches"):
+                distrust = True
+                xc["disagreements"].append({"unit": tag, "first": c["mismatches"][0]})
+                machinery_errors.append(f"{tag}: engine disagrees with CPython on concrete inputs; its verdicts are not trusted: {json.dumps(c['mismatches'][0], default=str)[:400]}")
+            for ce in c.get("contract_errors") or []:
+                xc["skipped"]["contract not evaluable natively: " + ce[:60]] = xc["skipped"].get("contract not evaluable natively: " + ce[:60], 0) + 1
+            for cf in c.get("contract_failures") or []:
+                for clause in cf["failed_clauses"][:2]:
+                    violations.append({"obligation": f"{u.get('prop', prop)}/RT/{tag}/{clause}"[:200], "unit": tag, "kind": "rt", "model": cf["inputs"],
+                                       "replay": {"status": "confirmed", "failed_clauses": cf["failed_clauses"], "inputs": cf["inputs"], "observed": cf["observed"]},
+                                       "solver": "RT (contract evaluated on a native run of the real function)", "target": u.get("target")})
         if u.get("error"):
             machinery_errors.append(f"{tag}: {u['error'][-1500:]}")
             continue
@@ -189,6 +220,8 @@ def assemble(prop, tier, seed, unit_results, fn_results, wall):
         if not u["obligations"]:
             machinery_errors.append(f"{tag}: zero obligations generated")
         for ob in u["obligations"]:
+            if distrust and ob["verdict"] == "discharged":
+                ob = dict(ob, verdict="undecided", reason="engine disagrees with CPython on this function (cross-check)")
             obligations.append({"name": ob["name"], "verdict": ob["verdict"], "backend": ob["backend"] or "z3",
                                 "seconds": ob["seconds"], "unit": tag})
             if ob["verdict"] == "refuted":
@@ -274,5 +307,5 @@ def assemble(prop, tier, seed, unit_results, fn_results, wall):
         "violations": violations, "new_violations": new_violations, "known_hits": [h["id"] for h, _ in known_hits],
         "undecided": undecided, "out_of_reach": out_of_reach, "machinery_errors": machinery_errors,
         "functions": functions, "dropped": sorted(dropped), "solver_s": solver_s, "fd_domains": fd_domains,
-        "bounded": bnd_reports, "lines": lines, "vacuity_notes": vacuity,
+        "bounded": bnd_reports, "lines": lines, "vacuity_notes": vacuity, "crosscheck": xc,
     }
